@@ -130,6 +130,9 @@ class TlcResult:
         self.coverage = {}
 
 
+_meta_seq = 0
+
+
 def run_tlc(scratch, module, cfg=None, workers=1, timeout=600, env=None, simulate=None,
             depth=None, xmx="4g", dfs=False, coverage=False, extra=None, capture_prefix=None,
             deadlock=False, cont=False):
@@ -139,7 +142,9 @@ def run_tlc(scratch, module, cfg=None, workers=1, timeout=600, env=None, simulat
     collected (unescaped, prefix stripped) in result.lines instead of being kept in result.out.
     """
     cfg = cfg or module + ".cfg"
-    meta = scratch.path("meta-" + module + "-" + str(int(time.time() * 1000) % 100000))
+    global _meta_seq
+    _meta_seq += 1
+    meta = scratch.path("meta-" + module + "-" + str(int(time.time() * 1000) % 100000) + "-" + str(_meta_seq))
     jopts = ["-XX:+UseParallelGC", "-Xss1g", "-Xmx" + xmx]
     if dfs:
         jopts.append("-Dtlc2.tool.queue.IStateQueue=StateDeque")
